@@ -25,6 +25,9 @@ ASSUMPTIONS = [
     "NSEC answers are judged by type, denied rdtypes and TTL; their owner may be the instance or the host name; an NSEC is "
     "required only when no registered service on that host name has an address of the asked type",
     "ANY questions on host names and NSEC records in known-answer lists are outside the completeness claim (as stated)",
+    "where the model leaves a record optional, the reply is still required to be a function of the registered set and "
+    "the query: identical queries against the same registered set (reached along different register/unregister "
+    "histories) must be offered the same optional records",
 ]
 
 UNKNOWN_TYPE = 99
@@ -91,6 +94,26 @@ def generate(rng, tier):
             ops.append(_query(rng, tq, svcs, list(state.values()), qid))
             qid += 1
         t += rng.choice([0.0, 0.05, 0.4, 1.0, 3.0])
+    if state and rng.random() < 0.35:
+        # the same registered set reached along two histories: ask, withdraw and re-register one service (which moves it
+        # to the end of the registry's order), ask the same again
+        t += 2.5
+        live = list(state.values())
+        qs = [_query(rng, 0.0, svcs, live, 0) for _ in range(rng.choice([2, 3, 5]))]
+        for rounds in range(rng.choice([1, 2])):
+            for q in qs:
+                q2 = {**q, "t": round(t + 0.0000005, 7), "msg": {**q["msg"], "id": qid}}
+                ops.append(q2)
+                qid += 1
+                t += 1.1
+            v = rng.choice(live)
+            ops.append({"t": round(t, 3), "op": "unregister", "h": "R", "name": v["name"]})
+            ops.append({"t": round(t + 0.6, 3), "op": "register", "h": "R", "svc": v})
+            t += 2.5
+        for q in qs:
+            ops.append({**q, "t": round(t + 0.0000005, 7), "msg": {**q["msg"], "id": qid}})
+            qid += 1
+            t += 1.1
     ops.sort(key=lambda o: o["t"])
     faults = {"max_delay_us": rng.choice([0, 2000, 100000]), "loop_delay_us": rng.choice([0, 1000]),
               "dup_p": rng.choice([0.0, 0.2]), "grid_p": 0.0}
@@ -220,7 +243,7 @@ def execute(scenario, seed, overrides=None):
         expect = {}  # query id -> dict
         stats = {"queries": 0, "answered": 0, "suppressed_known": 0, "registry_changes": 0, "enum_queries": 0,
                  "nsec_answers": 0, "queries_during_probing": 0, "additionals_seen": 0, "ptr_answers_with_full_additionals": 0,
-                 "ptr_answers": 0}
+                 "ptr_answers": 0, "repeated_queries_same_registry": 0}
         pending_reg = set()
 
         def apply_api():
@@ -288,7 +311,11 @@ def execute(scenario, seed, overrides=None):
                                            {x for s in reg.s.values() for x in s.own_idents()}},
                                    "known_nsec": any(r.type == wire.T_NSEC for r in msg.answers),
                                    "svc_sets": {s.name.lower(): s.own_idents() for s in reg.s.values()},
-                                   "registered": sorted(reg.s)}
+                                   "registered": sorted(reg.s),
+                                   "qsig": (tuple((q.name, q.type, q.cls, q.qu) for q in msg.questions),
+                                            tuple(sorted((repr(r.ident()), r.ttl) for r in msg.answers))),
+                                   "state_sig": tuple(sorted((s.name.lower(), tuple(sorted(map(repr, s.own_idents()))))
+                                                             for s in reg.s.values()))}
 
         w.net.on_rx = on_rx
 
@@ -329,6 +356,7 @@ def _oracle(w, expect, stats, out):
     for key in byt:
         if key not in expect:
             out.add("C03.unsolicited-reply", f"unicast reply id {key[0]} at {w.rel(key[1]):.6f} answers no delivered query")
+    groups = {}
     for (qid, tq), ex in sorted(expect.items()):
         batch = byt.get((qid, tq), [])
         answers = {}
@@ -368,6 +396,9 @@ def _oracle(w, expect, stats, out):
             if want and r.ttl not in {x.ttl for x in want}:
                 out.add("C03.answer-ttl", f"{qdesc}: {r!r} carries ttl {r.ttl}, configured {[x.ttl for x in want]}")
         stats["nsec_answers"] += sum(1 for r in answers.values() if r.type == wire.T_NSEC)
+        if not missing and not extra:
+            groups.setdefault((ex["qsig"], ex["state_sig"]), []).append(
+                (qdesc, frozenset(k for k in got_keys if k in opt_keys and k not in req_keys)))
         # additionals: only own records of a service that is answered for, never repeating an answer
         answered_svcs = set()
         for i in answers:
@@ -392,6 +423,24 @@ def _oracle(w, expect, stats, out):
                 own = ex["svc_sets"].get(r.rdata.lower())
                 if own and all((x in adds or x in answers) for x in own if x[1] != wire.T_NSEC):
                     stats["ptr_answers_with_full_additionals"] += 1
+    _history_clause(groups, stats, out)
+
+
+def _history_clause(groups, stats, out):
+    """The reply is a function of the registered set and the query: where the model leaves a record optional, two
+    identical queries against the same registered set must still be treated alike (whatever order the services were
+    registered in, and whatever was registered and withdrawn in between)."""
+    for key, lst in sorted(groups.items(), key=lambda kv: repr(kv[0])):
+        if len(lst) < 2:
+            continue
+        stats["repeated_queries_same_registry"] += len(lst) - 1
+        first = lst[0]
+        for other in lst[1:]:
+            if other[1] != first[1]:
+                diff = sorted(map(repr, first[1] ^ other[1]))
+                out.add("C03.reply-depends-on-history", f"{first[0]} and {other[0]} are the same query against the same "
+                        f"registered set, but only one of the replies offers {diff[:3]}")
+                return
 
 
 def _nsecs(ex, svc_lower):
